@@ -661,6 +661,22 @@ func runTypedRequests(w *ndWriter, p typedPkg) {
 			wi2.Stop()
 		}
 		cancel()
+		// a second clientset (another cluster) asked for the same resource and namespace gets a client of its own
+		rt2 := &recTransport{items: rt.items + 2}
+		if cs2, err2 := kubernetes.NewForConfig(&rest.Config{Host: "http://other.invalid", Transport: rt2}); err2 == nil {
+			cl2 := p.newClient(cs2, ns)
+			ctx2, cancel2 := context.WithTimeout(context.Background(), 2*time.Second)
+			l2, lerr2 := cl2.List(ctx2, metav1.ListOptions{})
+			cancel2()
+			n2 := -1
+			if lerr2 == nil && l2 != nil {
+				n2 = meta.LenList(l2)
+			}
+			rt2.mu.Lock()
+			hits := len(rt2.reqs)
+			rt2.mu.Unlock()
+			w.write2(fmt.Sprintf(`{"k":"typed.req2","pkg":%q,"ns":%q,"hits":%d,"listn":%d,"items":%d}`, p.name, ns, hits, n2, rt2.items))
+		}
 		rt.mu.Lock()
 		nlist, nwatch := 0, 0
 		for _, r := range rt.reqs {
@@ -683,22 +699,6 @@ func runTypedRequests(w *ndWriter, p typedPkg) {
 			sort.Strings(q)
 			w.write2(fmt.Sprintf(`{"k":"typed.req","pkg":%q,"ns":%q,"op":%q,"method":%q,"path":%q,"query":[%s],"listerr":%v,"watcherr":%v,"listn":%d,"items":%d}`,
 				p.name, ns, op, r.Method, r.URL.Path, strings.Join(q, ","), lerr != nil, werr != nil, listn, rt.items))
-		}
-		// a second clientset (another cluster) asked for the same resource and namespace gets a client of its own
-		rt2 := &recTransport{items: rt.items + 2}
-		if cs2, err2 := kubernetes.NewForConfig(&rest.Config{Host: "http://other.invalid", Transport: rt2}); err2 == nil {
-			cl2 := p.newClient(cs2, ns)
-			ctx2, cancel2 := context.WithTimeout(context.Background(), 2*time.Second)
-			l2, lerr2 := cl2.List(ctx2, metav1.ListOptions{})
-			cancel2()
-			n2 := -1
-			if lerr2 == nil && l2 != nil {
-				n2 = meta.LenList(l2)
-			}
-			rt2.mu.Lock()
-			hits := len(rt2.reqs)
-			rt2.mu.Unlock()
-			w.write2(fmt.Sprintf(`{"k":"typed.req2","pkg":%q,"ns":%q,"hits":%d,"listn":%d,"items":%d}`, p.name, ns, hits, n2, rt2.items))
 		}
 		if nlist < 1 || nwatch != 2 {
 			w.write2(fmt.Sprintf(`{"k":"typed.reqcount","pkg":%q,"ns":%q,"n":%d}`, p.name, ns, len(rt.reqs)))
